@@ -493,6 +493,8 @@ def run(repo, res, tier):
     DG.declguard_rule(repo, res, modules=("bash",))
     from . import c02 as _c02b
     common.run_traversals(repo, res, only={"check::specialize_nonterminals", "check::resolve_nonterminals", "check::do_propagate_fallback_levels"}, flows=_c02b.flows_table())
+    # a definition's body gets its own references replaced only if the dependency collector sees them wherever they stand (TC, shared with C08 / C15)
+    common.run_traversals(repo, res, only={"check::do_get_nonterm_refs"}, rp=False)
     RPL.from_grammar_order(repo, res)
     # the chosen definition is what runs only if it is reached at all (definitions expanded in dependency order, TOPO, shared with C02)
     # and if the id under which its function is defined is the id the tables call (base-dimension typing of command-id holes, DIM, shared with C04)
